@@ -19,6 +19,7 @@ FAMILIES = {
     "R(RC)(RQ)": ("R{R=%r}(R{R=%r}C{C=%r})(R{R=%r}Q{Y=%r,n=0.8})", (100.0, 200.0, 1e-6, 300.0, 1e-4)),
     "R(C[RW])": ("R{R=%r}(C{C=%r}[R{R=%r}W{Y=%r}])", (100.0, 1e-6, 200.0, 1e-3)),
     "RL(RQ)": ("R{R=%r}L{L=%r}(R{R=%r}Q{Y=%r,n=0.9})", (100.0, 1e-6, 200.0, 1e-5)),
+    "R(C[RW]) with the Warburg exponent released": ("R{R=%r}(C{C=%r}[R{R=%r}W{Y=%r,n=0.42}])", (100.0, 1e-6, 200.0, 1e-3)),   # n is fixed by default
 }
 FAMILIES2 = {   # a second set of time constants (thorough)
     "R(RC)": ("R{R=%r}(R{R=%r}C{C=%r})", (10.0, 500.0, 2e-3)),
@@ -135,6 +136,10 @@ def prepare_invariant(case: dict, st):
         els[1].set_upper_limits(R=180.0)
         els[3].set_lower_limits(R=350.0)
         els[2].set_upper_limits(n=0.82)
+    elif box == "value-on-limit":
+        els[2].set_values(n=1.0)                 # start (and, if fixed, final) value equal to the class upper limit
+        els[0].set_lower_limits(R=130.0)         # start value equal to a user limit
+        els[4].set_upper_limits(C=5e-4)
     elif box == "beyond-defaults":
         els[4].set_upper_limits(C=1e5).set_lower_limits(C=1e-9)        # upper limit above the class default (1e3)
         els[2].set_lower_limits(Y=1e-30)                               # lower limit below the class default (1e-24)
@@ -300,7 +305,7 @@ def cases(thorough: bool) -> List[dict]:
         for fam, scale, pert in itertools.product(FAMILIES2, (1e-1, 1e1), (1.5, 2.5)):
             out.append({"part": "recovery", "family": fam, "scale": scale, "pert": pert, "set": 2})
     fixeds = [[], [(0, "R")], [(2, "n")], [(4, "C")], [(0, "R"), (4, "C")], [(1, "R"), (2, "Y")]]
-    boxes = ["default", "tight-in", "tight-out", "beyond-defaults"]
+    boxes = ["default", "tight-in", "tight-out", "beyond-defaults", "value-on-limit"]
     constraints = ["none", "R2=2*R1", "R2>=R1+delta"]
     methods = METHODS if thorough else ["leastsq", "least_squares", "powell", "lbfgsb", "slsqp"]
     weights = WEIGHTS if thorough else ["boukamp", "unity"]
@@ -321,7 +326,7 @@ def run(ctx) -> None:
     ctx.rule = ("recovery with method = weight = 'auto': families R(RC), R(RQ), R(RC)(RC), R(RC)(RQ), R(C[RW]), RL(RQ) x impedance scale {1e-2, 1, 1e2} x "
                 "start perturbation {1.3, 2, 3} alternating up/down per parameter (18 of 54 in quick, all 54 plus a second set of time constants in "
                 "thorough); invariants on one R(RQ)(RC) circuit: 5 (9) methods x 2 (4) weights x limit boxes {default, tight containing the truth, "
-                "tight excluding the truth, limits beyond the class defaults} x 5 (6) subsets of fixed parameters x constraint sets {none, R_2 = "
+                "tight excluding the truth, limits beyond the class defaults, start/fixed values lying exactly on a limit} x 5 (6) subsets of fixed parameters x constraint sets {none, R_2 = "
                 "2 R_1, inequality through an auxiliary variable}; selection: multi-method/multi-weight calls versus the same pairs run one by one. "
                 "Oracles: parameters within 1e-2 up to a swap of identical parallel blocks and pseudo chi-squared <= 1e-6; bounds, fixed values "
                 "bit-identical, constraints to 1e-9, table and data frame = returned circuit, inputs untouched, winner = smallest pseudo chi-squared.")
